@@ -38,6 +38,8 @@ def concurrent(ctx, v, n):
     conf = vlib.impl_conformance(ctx, "MuxImplTrace", MC_CFG.replace("Locked = TRUE", "Locked = FALSE"), scen, MC_FIELDS, "mc")
     strict = vlib.impl_conformance(ctx, "MuxImplTrace", MC_CFG, scen[:200], MC_FIELDS, "mcs")
     conf["lock_discipline"] = dict(status=strict["status"], drift=strict.get("drift", [])[:2])
+    if conf["status"] == "inconclusive":   # (seen once: TLC failed to spill its state queue to disk) one more try
+        conf = vlib.impl_conformance(ctx, "MuxImplTrace", MC_CFG.replace("Locked = TRUE", "Locked = FALSE"), scen, MC_FIELDS, "mc2")
     if conf["status"] == "inconclusive":
         raise vlib.Infra("MuxImplTrace validation inconclusive: %s" % conf.get("detail"))
     for dr in conf["drift"]:
